@@ -381,8 +381,8 @@ func (obj *Func) FullName() string {
 
 func (obj *Func) RecvTypeName() string {
 	fnNode, _ := obj.node.(*ast.FuncDecl)
-	if fnNode == nil {
-		return ""
+	if fnNode == nil || fnNode.Recv == nil {
+		return "" // not a method (e.g. a function named _ or init, which has no parent scope either)
 	}
 	if len(fnNode.Recv.List) != 1 {
 		return ""
